@@ -154,9 +154,42 @@ func checkPathsCase(res *Result, pc *pathsCase, T string, idx int) {
 	}
 	gotRoots := map[string]interface{}{"goroot": s.RemoteGOROOT, "gopaths": s.RemoteGOPATHs, "gomods": s.LocalGomods}
 	wantRoots := map[string]interface{}{"goroot": atomsToPath(pc.Goroot, T), "gopaths": wantGP, "gomods": wantGM}
-	if s.RemoteGOROOT != atomsToPath(pc.Goroot, T) || !reflect.DeepEqual(s.RemoteGOPATHs, wantGP) || !reflect.DeepEqual(s.LocalGomods, wantGM) {
-		res.violation(mk("C18", "roots", "detected roots differ from the specification", wantRoots, gotRoots))
+	// property level, on the real values: every detected remote root prefixes a frame
+	rootBad := ""
+	prefixes := func(root string) bool {
+		for _, f := range pc.Frames {
+			if strings.HasPrefix(atomsToPath(f, T), root+"/") {
+				return true
+			}
+		}
+		return false
+	}
+	if s.RemoteGOROOT != "" && !prefixes(s.RemoteGOROOT+"/src") {
+		rootBad = "RemoteGOROOT " + s.RemoteGOROOT + " prefixes no frame"
+	}
+	for r := range s.RemoteGOPATHs {
+		if !prefixes(r+"/src") && !prefixes(r+"/pkg/mod") {
+			rootBad = "remote GOPATH " + r + " prefixes no frame"
+		}
+	}
+	for r := range s.LocalGomods {
+		if !prefixes(r) {
+			rootBad = "module root " + r + " prefixes no frame"
+		}
+	}
+	if rootBad != "" {
+		res.violation(mk("C18", "roots", rootBad, wantRoots, gotRoots))
 		return
+	}
+	if s.RemoteGOROOT != atomsToPath(pc.Goroot, T) || !reflect.DeepEqual(s.RemoteGOPATHs, wantGP) || !reflect.DeepEqual(s.LocalGomods, wantGM) {
+		f := mk("C18", "roots", "detected roots differ from the specification's transcription", wantRoots, gotRoots)
+		if pc.InDomain {
+			// inside the fidelity domain the frames below decide; roots are compared for the record
+			res.drift(f)
+		} else {
+			res.drift(f)
+			return
+		}
 	}
 	// each detected remote root prefixes a frame it explains (checked on the real values too)
 	for i := range s.Goroutines[0].Stack.Calls {
@@ -186,7 +219,12 @@ func checkPathsCase(res *Result, pc *pathsCase, T string, idx int) {
 			bad = true
 		}
 		if bad {
-			res.violation(mk("C18", "frame", fmt.Sprintf("frame %s is mapped differently from the specification", c.RemoteSrcPath), want, got))
+			f := mk("C18", "frame", fmt.Sprintf("frame %s is mapped differently from the specification", c.RemoteSrcPath), want, got)
+			if pc.InDomain || (c.LocalSrcPath != "" && !strings.HasSuffix(c.LocalSrcPath, c.RelSrcPath)) || (c.Location == stack.LocationUnknown && c.LocalSrcPath != "") {
+				res.violation(f) // in the fidelity domain the specification's mapping is the ground truth
+			} else {
+				res.drift(f) // nested roots / pseudo-modules: only the generic clauses are required
+			}
 			return
 		}
 	}
